@@ -80,7 +80,8 @@ LayerStacks == {
   << <<B(<<"g", "x">>, IntV(1)), B(<<"g", "y">>, IntV(2)), B(<<"u">>, IntV(3))>> >>                   \* attrpath family in a layer
 }
 PlainWrap == { <<>> }
-MapLayers == { <<>>, << <<B(<<"u">>, IntV(1))>> >>, << <<B(<<"u">>, IntV(1)), B(<<"w">>, IntV(2))>> >> }
+MapLayers == { <<>>, << <<B(<<"u">>, IntV(1))>> >>, << <<B(<<"u">>, IntV(1)), B(<<"w">>, IntV(2))>> >>,
+               << <<Inh(<<"lib">>), B(<<"u">>, IntV(1)), B(<<"w">>, IntV(2))>> >> }          \* an inherit in front of the bindings
 Wrappers == { <<>>, <<"lam_id">>, <<"lam_formals">>, <<"with">>, <<"assert">>, <<"paren">>,
               <<"call">>, <<"call_rec">>, <<"call_paren_lam">>, <<"lam_formals", "with", "assert">> }
 
